@@ -35,7 +35,7 @@ theorem sum_map_lin {α : Type} (L : List α) (a b : Nat) (x y : α → Nat) :
     simp only [List.map_cons, List.sum_cons, ih]
     ring
 
-theorem all_members {Ms : List (Op R)} {p : Op R → Bool} (h : (Ms.map (fun M => p M)).all id = true) :
+theorem all_members_cost {Ms : List (Op R)} {p : Op R → Bool} (h : (Ms.map (fun M => p M)).all id = true) :
     ∀ M ∈ Ms, p M = true := by
   intro M hM
   rw [List.all_eq_true] at h
@@ -93,7 +93,7 @@ theorem ruleCost_le : ∀ (A : Op R) (f : Fn), deepRule f A = true →
     · cases h
     · rename_i g he
       exact members_step f g _ Ms _ (ownCost_le f (kron Ms) Ms.length _ (by simp [arity]) rfl)
-        (fun M hM => ruleCost_le M g (all_members h M hM))
+        (fun M hM => ruleCost_le M g (all_members_cost h M hM))
   | kronsum Ms, f, h => by
     rw [deepRule] at h
     rw [ruleCost, factorDense, linSize]
@@ -102,7 +102,7 @@ theorem ruleCost_le : ∀ (A : Op R) (f : Fn), deepRule f A = true →
     · cases h
     · rename_i g he
       exact members_step f g _ Ms _ (ownCost_le f (kronsum Ms) Ms.length _ (by simp [arity]) rfl)
-        (fun M hM => ruleCost_le M g (all_members h M hM))
+        (fun M hM => ruleCost_le M g (all_members_cost h M hM))
   | bdiag Ms mults, f, h => by
     rw [deepRule] at h
     rw [ruleCost, factorDense, linSize]
@@ -111,7 +111,7 @@ theorem ruleCost_le : ∀ (A : Op R) (f : Fn), deepRule f A = true →
     · cases h
     · rename_i g he
       exact members_step f g _ Ms _ (ownCost_le f (bdiag Ms mults) Ms.length _ (by simp [arity]) rfl)
-        (fun M hM => ruleCost_le M g (all_members h M hM))
+        (fun M hM => ruleCost_le M g (all_members_cost h M hM))
   | prod Ms, f, h => by
     rw [deepRule] at h
     rw [ruleCost, factorDense, linSize]
@@ -122,7 +122,7 @@ theorem ruleCost_le : ∀ (A : Op R) (f : Fn), deepRule f A = true →
       simp only [Bool.and_eq_true] at h
       rw [if_pos h.1]
       exact members_step f g _ Ms _ (ownCost_le f (prod Ms) Ms.length _ (by simp [arity]) rfl)
-        (fun M hM => ruleCost_le M g (all_members h.2 M hM))
+        (fun M hM => ruleCost_le M g (all_members_cost h.2 M hM))
   | sum Ms, f, h => by
     rw [deepRule] at h
     rw [ruleCost, factorDense, linSize]
@@ -131,7 +131,7 @@ theorem ruleCost_le : ∀ (A : Op R) (f : Fn), deepRule f A = true →
     · cases h
     · rename_i g he
       exact members_step f g _ Ms _ (ownCost_le f (sum Ms) Ms.length _ (by simp [arity]) rfl)
-        (fun M hM => ruleCost_le M g (all_members h M hM))
+        (fun M hM => ruleCost_le M g (all_members_cost h M hM))
   | transpose A, f, h => by
     rw [deepRule] at h
     rw [ruleCost, factorDense, linSize]
